@@ -72,7 +72,11 @@ LookAtoms == { <<"/x", "1", "def">>, <<"/x", "2", "def">>, <<"3", "dict", "begin
                <<"/x", "load">>, <<"/x", "where", "{", "pop", "5", "}", "{", "6", "}", "ifelse">>,
                <<"userdict", "begin">>, <<"currentdict", "/x", "known">>,
                <<"/add", "{", "pop", "7", "}", "def">>, <<"1", "2", "add">>,
-               <<"{", "1", "2", "add", "}", "bind", "/p", "exch", "def">>, <<"p">> }
+               <<"{", "1", "2", "add", "}", "bind", "/p", "exch", "def">>, <<"p">>,
+               \* a dictionary literal with a repeated key: pairs are entered in order, the last one wins
+               <<"<<", "/x", "1", "/y", "5", "/x", "2", ">>", "begin">>,
+               \* a name whose value is the file object (the library's nil): it is found, not skipped
+               <<"/x", "currentfile", "def">> }
 LookLen == IF Tier = "quick" THEN 4 ELSE 5
 
 VARIABLES s, stim, phase,
@@ -103,6 +107,14 @@ PickLook ==
           /\ UNCHANGED <<phase, s, u>>
        \/ /\ stim.n > 0
           /\ phase' = "start" /\ UNCHANGED <<stim, s, u>>
+\* ---- dictionary literals (C02): up to three pairs over two keys, then a look-up
+PickDictLit ==
+    /\ Family = "dictlit" /\ phase = "pick1"
+    /\ \E n \in 1..3, k1 \in {"/x", "/y"}, k2 \in {"/x", "/y"}, k3 \in {"/x", "/y"}, v1 \in {"1", "2"}, v2 \in {"2", "5"}, v3 \in {"1", "5"},
+          opener \in {"<<", "mark"}, q \in {"/x", "/y"} :
+          stim' = [stim EXCEPT !.mid = <<opener>> \o SubSeq(<<k1, v1, k2, v2, k3, v3>>, 1, 2 * n) \o <<">>", "dup", "length", "exch", q, "get">>]
+    /\ phase' = "start" /\ UNCHANGED <<s, u>>
+
 \* ---- recursion and growth shapes against the real limits (C11, C01b)
 LimitShapes == {
     <<"/f", "{", "f", "1", "}", "def", "f">>,                           \* self call, not in tail position
@@ -208,7 +220,7 @@ Run == /\ phase = "run" /\ s.status = "running"
                ELSE IF Family = "calls" THEN u     \* the unsplit twin is run to its end when needed (RunToEnd)
                ELSE u
        /\ UNCHANGED <<stim, phase>>
-Next == PickCtl \/ PickLook \/ PickBudget \/ PickLimit \/ PickCalls \/ PickBudgetCalls \/ Start \/ Run \/ FeedStep \/ FeedRun
+Next == PickCtl \/ PickLook \/ PickDictLit \/ PickBudget \/ PickLimit \/ PickCalls \/ PickBudgetCalls \/ Start \/ Run \/ FeedStep \/ FeedRun
 
 Vector == [prog |-> IF Family = "feed" THEN stim.prog ELSE Feed0(stim), init |-> <<>>, maxops |-> s.maxops,
            status |-> s.status, errs |-> s.errs, ost |-> s.ost, dst |-> s.dst,
